@@ -977,6 +977,7 @@ class Terminal:
                                     f"for {index:x}:{subindex:x}")
         else:
             async with self.mbx_lock:
+                value = data  # data is reused for the responses below
                 stop = min(len(data), self.mbx_out_sz - 16)
                 await self.mbx_send(
                         MBXType.COE, "HBHB4x", CoECmd.SDOREQ.value << 12,
@@ -992,26 +993,27 @@ class Terminal:
                                               else subindex):
                     raise EtherCatError(f"requested index {index}, got {idx}")
                 toggle = 0
-                while stop < len(data):
+                while stop < len(value):
                     start = stop
-                    stop = min(len(data), start + self.mbx_out_sz - 9)
-                    if stop == len(data):
-                        if stop - start < 7:
-                            cmd = 1 + (7-stop+start << 1)
-                            d = data[start:stop] + b"\0" * (7 - stop + start)
-                        else:
-                            cmd = 1
-                            d = data[start:stop]
-                        await self.mbx_send(
-                                MBXType.COE, "HBHB4x", CoECmd.SDOREQ.value << 12,
-                                cmd + toggle, index,
-                                1 if subindex is None else subindex, data=d)
-                        data = await self.mbx_recv_coe()
-                        coecmd, sdocmd, idx, subidx = unpack("<HBHB", data[:6])
-                        if coecmd >> 12 != CoECmd.SDORES.value:
-                            raise EtherCatError(f"expected CoE SDORES")
-                        if idx != index or subindex != subidx:
-                            raise EtherCatError(f"requested index {index}")
+                    stop = min(len(value), start + self.mbx_out_sz - 9)
+                    d = value[start:stop]
+                    cmd = toggle
+                    if stop == len(value):
+                        cmd |= 1  # last segment
+                    if len(d) < 7:
+                        cmd |= (7 - len(d)) << 1
+                        d = d + b"\0" * (7 - len(d))
+                    await self.mbx_send(
+                            MBXType.COE, "HB", CoECmd.SDOREQ.value << 12,
+                            cmd, data=d)
+                    data = await self.mbx_recv_coe()
+                    coecmd, sdocmd = unpack("<HB", data[:3])
+                    if coecmd >> 12 != CoECmd.SDORES.value:
+                        raise EtherCatError(f"expected CoE SDORES")
+                    if sdocmd != 0x20 | toggle:
+                        raise EtherCatError(
+                            f"download segment of {index:x} failed: "
+                            f"response {sdocmd:x}")
                     toggle ^= 0x10
 
     async def read_object_entry(self, index, subidx):
